@@ -9,9 +9,10 @@ git apply "$OUT/patch.diff" || { echo "patch does not apply"; exit 2; }
 echo "## suite with patch"
 cargo test --workspace --no-fail-fast --offline 2>&1 | grep -E "^test result|FAILED|panicked" | sort | uniq -c | head -20
 cp "$OUT/$DEMO.rs" tests/$DEMO.rs
+if [ -n "${DEMO_FLAGS:-}" ]; then echo "## nightly pattern tests with patch"; cargo +nightly test --offline --features pattern --test pattern_tests 2>&1 | grep -E "^test result"; fi
 echo "## demo with patch (expect FAIL)"
-cargo test --offline --test $DEMO -- --test-threads=1 2>&1 | grep -E "^test result|^test .*(FAILED|ok)$" | head -10
+${DEMO_CARGO:-cargo} test --offline ${DEMO_FLAGS:-} --test $DEMO -- --test-threads=1 2>&1 | grep -E "^test result|^test .*(FAILED|ok)$" | head -10
 git checkout -q -- src Cargo.toml 2>/dev/null
 echo "## demo without patch (expect ok)"
-cargo test --offline --test $DEMO -- --test-threads=1 2>&1 | grep -E "^test result|^test .*(FAILED|ok)$" | head -10
+${DEMO_CARGO:-cargo} test --offline ${DEMO_FLAGS:-} --test $DEMO -- --test-threads=1 2>&1 | grep -E "^test result|^test .*(FAILED|ok)$" | head -10
 rm -f tests/$DEMO.rs
